@@ -262,4 +262,295 @@ theorem totalNs_spec (d : Dur) (h : d.Canon) (hd : Dur.d1class d = false) :
 theorem clampD_satI128 (x : Int) : clampD (satI128 x) = clampD x := by
   unfold satI128 clampD DMIN DMAX; simp only [NPCs_eq]; grind
 
+/-- the nine factors of `impl Mul<i64> for Unit` -/
+def unitFactors : List Int :=
+  [1, Gen.NANOSECONDS_PER_MICROSECOND, Gen.NANOSECONDS_PER_MILLISECOND, Gen.NANOSECONDS_PER_SECOND,
+   Gen.NANOSECONDS_PER_MINUTE, Gen.NANOSECONDS_PER_HOUR, Gen.NANOSECONDS_PER_DAY,
+   Gen.NANOSECONDS_PER_DAY * Gen.DAYS_PER_WEEK_I64, Gen.NANOSECONDS_PER_CENTURY]
+
+theorem unitFactors_eq : unitFactors =
+    [1, 1000, 1000000, 1000000000, 60000000000, 3600000000000, 86400000000000, 604800000000000,
+     3155760000000000000] := by decide
+
+theorem unitMulI64_aux (p q : Int) (hp : fitsI128 p = true) (hs : q < 0 ↔ p < 0) :
+    (if fitsI64 p then
+      if (if p < 0 then -p else p) < I64MAX then Dur.fromTruncated p else Dur.fromTotal p
+     else if fitsI128 p then Dur.fromTotal p else if q < 0 then Dur.MIN else Dur.MAX).Canon ∧
+    (if fitsI64 p then
+      if (if p < 0 then -p else p) < I64MAX then Dur.fromTruncated p else Dur.fromTotal p
+     else if fitsI128 p then Dur.fromTotal p else if q < 0 then Dur.MIN else Dur.MAX).val = clampD p := by
+  by_cases h1 : fitsI64 p = true
+  · rw [if_pos h1]
+    by_cases h2 : (if p < 0 then -p else p) < I64MAX
+    · rw [if_pos h2]
+      have := fromTruncated_spec p h1
+      refine ⟨this.1, ?_⟩
+      rw [this.2, clampD_mid] <;> (unfold fitsI64 at h1; simp only [decide_eq_true_eq] at h1; omega)
+    · rw [if_neg h2]; exact fromTotal_spec p
+  · rw [if_neg h1, if_pos hp]; exact fromTotal_spec p
+
+theorem unitMulI64_spec (f q : Int) (hf : f ∈ unitFactors) (hq : fitsI64 q = true) :
+    (Dur.unitMulI64 f q).Canon ∧ (Dur.unitMulI64 f q).val = clampD (q * f) := by
+  unfold Dur.unitMulI64
+  unfold fitsI64 at hq; simp only [decide_eq_true_eq] at hq
+  rw [unitFactors_eq] at hf
+  simp only [List.mem_cons, List.not_mem_nil, or_false] at hf
+  apply unitMulI64_aux
+  · unfold fitsI128; simp only [decide_eq_true_eq]
+    rcases hf with h | h | h | h | h | h | h | h | h <;> subst h <;> omega
+  · rcases hf with h | h | h | h | h | h | h | h | h <;> subst h <;> omega
+
+theorem mulI64_spec (a : Dur) (q : Int) (ha : a.Canon) (hq : fitsI64 q = true)
+    (h1 : Dur.d1class a = false) (h2 : Dur.d1class (Dur.unitMulI64 1 q) = false) :
+    (Dur.mulI64 a q).Canon ∧ (Dur.mulI64 a q).val = clampD (a.val * q) := by
+  unfold Dur.mulI64
+  have hu := unitMulI64_spec 1 q (by unfold unitFactors; simp) hq
+  rw [totalNs_spec a ha h1, totalNs_spec _ hu.1 h2, hu.2]
+  have hq' : clampD (q * 1) = q := by
+    unfold fitsI64 at hq; simp only [decide_eq_true_eq] at hq
+    rw [clampD_mid] <;> omega
+  rw [hq']
+  have := fromTotal_spec (satI128 (a.val * q))
+  refine ⟨this.1, ?_⟩
+  rw [this.2, clampD_satI128]
+
+theorem tdiv_bound (x q : Int) (hq : q ≠ 0) (lo hi : Int) (hlo : lo ≤ 0) (hhi : 0 ≤ hi)
+    (h1 : lo ≤ x) (h2 : x ≤ hi) (h3 : lo ≤ -x) (h4 : -x ≤ hi) :
+    lo ≤ Int.tdiv x q ∧ Int.tdiv x q ≤ hi := by
+  have habs : (Int.tdiv x q).natAbs ≤ x.natAbs := by
+    rw [Int.natAbs_tdiv]
+    exact Nat.div_le_self _ _
+  omega
+
+theorem divI64_spec (a : Dur) (q : Int) (ha : a.Canon) (hq : fitsI64 q = true) (hq0 : q ≠ 0)
+    (h1 : Dur.d1class a = false) (h2 : Dur.d1class (Dur.unitMulI64 1 q) = false) :
+    ∃ r, Dur.divI64 a q = .ok r ∧ r.Canon ∧ r.val = clampD (Int.tdiv a.val q) := by
+  unfold Dur.divI64
+  have hu := unitMulI64_spec 1 q (by unfold unitFactors; simp) hq
+  have hq' : clampD (q * 1) = q := by
+    unfold fitsI64 at hq; simp only [decide_eq_true_eq] at hq
+    rw [clampD_mid] <;> omega
+  rw [totalNs_spec a ha h1, totalNs_spec _ hu.1 h2, hu.2, hq', if_neg hq0]
+  have := fromTotal_spec (satI128 (Int.tdiv a.val q))
+  exact ⟨_, rfl, this.1, by rw [this.2, clampD_satI128]⟩
+
+/-! ### C02 -/
+
+theorem canon_unique (a b : Dur) (ha : a.Canon) (hb : b.Canon) (h : a.val = b.val) : a = b := by
+  obtain ⟨a1, a2, a3, a4⟩ := ha
+  obtain ⟨b1, b2, b3, b4⟩ := hb
+  unfold Dur.val valP at h
+  simp only [NPC_eq, NPCs_eq] at *
+  cases a with | mk ac ans => cases b with | mk bc bns =>
+  simp only at *
+  have : ac = bc := by omega
+  subst this
+  have : ans = bns := by omega
+  subst this; rfl
+
+theorem canon_range (a : Dur) (ha : a.Canon) : DMIN ≤ a.val ∧ a.val ≤ DMAX := by
+  obtain ⟨a1, a2, a3, a4⟩ := ha
+  unfold Dur.val valP DMIN DMAX
+  simp only [NPC_eq, NPCs_eq] at *
+  omega
+
+theorem tryTruncated_spec (a : Dur) (ha : a.Canon) :
+    Dur.tryTruncated a ≠ .panic ∧
+    (∀ v, Dur.tryTruncated a = .ok v → v = a.val) ∧
+    (-2 * NPCs ≤ a.val ∧ a.val ≤ 2 * NPCs → Dur.tryTruncated a = .ok a.val) ∧
+    (fitsI64 a.val = false → Dur.tryTruncated a = .err) := by
+  obtain ⟨a1, a2, a3, a4⟩ := ha
+  unfold Dur.tryTruncated Dur.val valP fitsI64
+  simp only [NPC_eq, NPCs_eq] at *
+  cases a with | mk c ns =>
+  simp only at *
+  grind
+
+theorem truncated_spec (a : Dur) (ha : a.Canon) :
+    ∃ v, Dur.truncated a = .ok v ∧
+      (-2 * NPCs ≤ a.val ∧ a.val ≤ 2 * NPCs → v = a.val) ∧
+      (v = a.val ∨ (a.val < 0 ∧ v = I64MIN) ∨ (a.val ≥ 0 ∧ v = I64MAX)) ∧
+      (fitsI64 a.val = false → (a.val < 0 ∧ v = I64MIN) ∨ (a.val ≥ 0 ∧ v = I64MAX)) := by
+  have ht := tryTruncated_spec a ha
+  obtain ⟨a1, a2, a3, a4⟩ := ha
+  unfold Dur.truncated
+  obtain ⟨t1, t2, t3, t4⟩ := ht
+  have hsign : a.c < 0 ↔ a.val < 0 := by
+    unfold Dur.val valP; simp only [NPC_eq, NPCs_eq] at *; omega
+  cases hres : Dur.tryTruncated a with
+  | ok v =>
+    have := t2 v hres
+    subst this
+    refine ⟨_, rfl, fun _ => rfl, Or.inl rfl, ?_⟩
+    intro hf; rw [t4 hf] at hres; cases hres
+  | err =>
+    simp only
+    by_cases hc : a.c < 0
+    · rw [if_pos hc]
+      refine ⟨_, rfl, ?_, Or.inr (Or.inl ⟨hsign.mp hc, rfl⟩), fun _ => Or.inl ⟨hsign.mp hc, rfl⟩⟩
+      intro h; rw [t3 h] at hres; cases hres
+    · rw [if_neg hc]
+      have : a.val ≥ 0 := by
+        have : ¬ a.val < 0 := fun h => hc (hsign.mpr h)
+        omega
+      refine ⟨_, rfl, ?_, Or.inr (Or.inr ⟨this, rfl⟩), fun _ => Or.inr ⟨this, rfl⟩⟩
+      intro h; rw [t3 h] at hres; cases hres
+  | panic => exact absurd hres t1
+
+theorem compose_spec (sign d h m s ms us ns : Int) :
+    ∃ r, Dur.compose sign d h m s ms us ns = .ok r ∧ r.Canon ∧
+      r.val = clampD ((if sign < 0 then -1 else 1) *
+        (d * 86400000000000 + h * 3600000000000 + m * 60000000000 + s * 1000000000 + ms * 1000000 + us * 1000 + ns)) := by
+  unfold Dur.compose
+  simp only
+  have ht := fromTotal_spec (d * 86400000000000 + h * 3600000000000 + m * 60000000000 + s * 1000000000 + ms * 1000000 + us * 1000 + ns)
+  by_cases hsg : sign < 0
+  · rw [if_pos hsg, if_pos hsg]
+    obtain ⟨r, h1, h2, h3⟩ := neg_spec _ ht.1
+    refine ⟨r, h1, h2, ?_⟩
+    rw [h3, ht.2]
+    have := clampD_range (d * 86400000000000 + h * 3600000000000 + m * 60000000000 + s * 1000000000 + ms * 1000000 + us * 1000 + ns)
+    unfold clampD DMIN DMAX at *; simp only [NPCs_eq] at *; grind
+  · rw [if_neg hsg, if_neg hsg]
+    refine ⟨_, rfl, ht.1, ?_⟩
+    rw [ht.2]; congr 1; omega
+
+theorem fromStd_spec (secs nanos : Int) (h1 : 0 ≤ secs ∧ secs ≤ 18446744073709551615)
+    (h2 : 0 ≤ nanos ∧ nanos < 1000000000) :
+    (Dur.fromStd secs nanos).Canon ∧ (Dur.fromStd secs nanos).val = clampD (secs * 1000000000 + nanos) := by
+  unfold Dur.fromStd
+  simp only
+  have : ¬ (secs * 1000000000 + nanos > I128MAX) := by unfold I128MAX; omega
+  rw [if_neg this]
+  exact fromTotal_spec _
+
+theorem intoStd_spec (a : Dur) (ha : a.Canon) :
+    Dur.intoStd a = (if a.val < 0 then (0, 0) else (a.val / 1000000000, a.val % 1000000000)) := by
+  obtain ⟨a1, a2, a3, a4⟩ := ha
+  unfold Dur.intoStd Dur.signum Dur.totalNs Dur.val valP U64MAX
+  simp only [NPC_eq, NPCs_eq] at *
+  cases a with | mk c ns =>
+  simp only at *
+  grind
+
+/-! ### C03 -/
+
+theorem cmp_spec (a b : Dur) (ha : a.Canon) (hb : b.Canon) :
+    Dur.cmp a b = (if a.val < b.val then -1 else if a.val > b.val then 1 else 0) := by
+  obtain ⟨a1, a2, a3, a4⟩ := ha
+  obtain ⟨b1, b2, b3, b4⟩ := hb
+  unfold Dur.cmp Dur.val valP
+  simp only [NPC_eq, NPCs_eq] at *
+  grind
+
+theorem eqb_spec (a b : Dur) (ha : a.Canon) (hb : b.Canon) :
+    Dur.eqb a b = true ↔ (a.val = b.val ∨ (a.val = -b.val ∧ -NPCs < a.val ∧ a.val < NPCs)) := by
+  obtain ⟨a1, a2, a3, a4⟩ := ha
+  obtain ⟨b1, b2, b3, b4⟩ := hb
+  unfold Dur.eqb Dur.val valP
+  simp only [NPC_eq, NPCs_eq] at *
+  cases a with | mk ac ans => cases b with | mk bc bns =>
+  simp only at *
+  grind
+
+/-! ### C14 -/
+
+theorem clampD_zero : clampD 0 = 0 := by decide
+
+theorem floor_spec (d s : Dur) (hd : d.Canon) (hs : s.Canon)
+    (h1 : Dur.d1class d = false) (h2 : Dur.d1class s = false) :
+    (Dur.floor d s).Canon ∧ (Dur.floor d s).val = sfloor d.val s.val := by
+  unfold Dur.floor sfloor
+  rw [totalNs_spec d hd h1, totalNs_spec s hs h2]
+  by_cases h0 : s.val = 0
+  · rw [if_pos h0, if_pos h0]
+    have := fromTotal_spec 0
+    rw [clampD_zero] at this; exact this
+  · rw [if_neg h0, if_neg h0]
+    exact fromTotal_spec _
+
+theorem emod_bounds (x s : Int) (hs : s ≠ 0) : 0 ≤ x % s ∧ x % s < (if s < 0 then -s else s) := by
+  refine ⟨Int.emod_nonneg x hs, ?_⟩
+  have := Int.emod_lt x hs
+  split <;> omega
+
+theorem ceil_spec (d s : Dur) (hd : d.Canon) (hs : s.Canon)
+    (h1 : Dur.d1class d = false) (h2 : Dur.d1class s = false) (h3 : Dur.d1class (Dur.floor d s) = false) :
+    ∃ r, Dur.ceil d s = .ok r ∧ r.Canon ∧ r.val = sceil d.val s.val := by
+  unfold Dur.ceil sceil
+  obtain ⟨sa, e1, e2, e3⟩ := abs_spec s hs
+  have hf := floor_spec d s hd hs h1 h2
+  rw [e1]
+  simp only
+  have hsv : clampD (if s.val < 0 then -s.val else s.val) = (if s.val < 0 then -s.val else s.val) := by
+    have hr := canon_range s hs
+    unfold DMIN DMAX at hr; simp only [NPCs_eq] at hr
+    rw [clampD_mid] <;> (split <;> omega)
+  have hsa : Dur.d1class sa = false := by
+    unfold Dur.d1class; simp only [decide_eq_false_iff_not]
+    have hnn : 0 ≤ sa.val := by rw [e3, hsv]; split <;> omega
+    obtain ⟨a1, a2, a3, a4⟩ := e2
+    unfold Dur.val valP at hnn
+    simp only [NPC_eq, NPCs_eq] at *
+    omega
+  rw [totalNs_spec _ hf.1 h3, totalNs_spec sa e2 hsa, hf.2, e3, hsv]
+  have hfit : fitsI128 (sfloor d.val s.val + (if s.val < 0 then -s.val else s.val)) = true := by
+    unfold fitsI128; simp only [decide_eq_true_eq]
+    have hr := canon_range s hs
+    unfold DMIN DMAX at hr; simp only [NPCs_eq] at hr
+    have hfr : -103407943680000000000000 ≤ sfloor d.val s.val ∧ sfloor d.val s.val ≤ 103407943680000000000000 := by
+      unfold sfloor; split
+      · omega
+      · exact clampD_range _
+    split <;> omega
+  rw [if_pos hfit]
+  have := fromTotal_spec (sfloor d.val s.val + (if s.val < 0 then -s.val else s.val))
+  exact ⟨_, rfl, this.1, this.2⟩
+
+theorem round_bounds (x sv : Int)
+    (hx : -103407943680000000000000 ≤ x ∧ x ≤ 103407943680000000000000)
+    (hs : -103407943680000000000000 ≤ sv ∧ sv ≤ 103407943680000000000000) :
+    -103407943680000000000000 ≤ x - sfloor x sv ∧ x - sfloor x sv ≤ 103407943680000000000000 ∧
+    -103407943680000000000000 ≤ sceil x sv - x ∧ sceil x sv - x ≤ 103407943680000000000000 := by
+  unfold sceil sfloor
+  by_cases h0 : sv = 0
+  · subst h0; simp only [if_true]; rw [show (0:Int) + (if (0:Int) < 0 then -0 else 0) = 0 by decide, clampD_zero]; omega
+  · simp only [if_neg h0]
+    have hb := emod_bounds x sv h0
+    generalize x % sv = r at *
+    unfold clampD DMIN DMAX; simp only [NPCs_eq]
+    grind
+
+theorem round_spec (d s : Dur) (hd : d.Canon) (hs : s.Canon)
+    (h1 : Dur.d1class d = false) (h2 : Dur.d1class s = false) (h3 : Dur.d1class (Dur.floor d s) = false) :
+    ∃ r, Dur.round d s = .ok r ∧ r.Canon ∧ r.val = sround d.val s.val := by
+  unfold Dur.round sround
+  obtain ⟨ce, c1, c2, c3⟩ := ceil_spec d s hd hs h1 h2 h3
+  have hf := floor_spec d s hd hs h1 h2
+  rw [c1]; simp only
+  have hsub1 := sub_spec ce d c2 hd
+  obtain ⟨x, x1, x2, x3⟩ := abs_spec _ hsub1.1
+  rw [x1]; simp only
+  have hsub2 := sub_spec d (Dur.floor d s) hd hf.1
+  have hrd := canon_range d hd
+  have hrs := canon_range s hs
+  unfold DMIN DMAX at hrd hrs; simp only [NPCs_eq] at hrd hrs
+  have hb := round_bounds d.val s.val hrd hrs
+  have e1 : (Dur.sub d (Dur.floor d s)).val = d.val - sfloor d.val s.val := by
+    rw [hsub2.2, hf.2, clampD_mid] <;> omega
+  have e2 : x.val = (if sceil d.val s.val - d.val < 0 then -(sceil d.val s.val - d.val) else sceil d.val s.val - d.val) := by
+    rw [x3, hsub1.2, c3, clampD_mid (x := sceil d.val s.val - d.val) (by omega) (by omega)]
+    rw [clampD_mid] <;> (split <;> omega)
+  have hlt : Dur.lt (Dur.sub d (Dur.floor d s)) x = true ↔
+      d.val - sfloor d.val s.val < (if sceil d.val s.val - d.val < 0 then -(sceil d.val s.val - d.val) else sceil d.val s.val - d.val) := by
+    unfold Dur.lt
+    rw [cmp_spec _ _ hsub2.1 x2, e1, e2]
+    simp only [decide_eq_true_eq]
+    grind
+  by_cases hc : Dur.lt (Dur.sub d (Dur.floor d s)) x = true
+  · rw [if_pos hc, if_pos (hlt.mp hc)]
+    exact ⟨_, rfl, hf.1, hf.2⟩
+  · rw [if_neg hc, if_neg (fun h => hc (hlt.mpr h))]
+    exact ⟨_, rfl, c2, c3⟩
+
 end Hifi
